@@ -107,3 +107,27 @@ Theorem C20_scaled_bounds_ordered : forall l u a s : Q,
   (is_neg s = false -> lo <= hi) /\ (is_neg s = true -> hi <= lo).
 Proof. exact scaled_bounds_ordered. Qed.
 Print Assumptions C20_scaled_bounds_ordered.
+
+(* whole-matrix form: for every response row of any matrix, the row produced by apply_jac_scaling
+   (jac_scale, with the code's scalar / per-element / None scalers) applied to the scaled design
+   vectors (vec_scale) reproduces the difference of the scaled responses: jac_scale J is the
+   jacobian of  T_r o (x |-> J x + c) o T_d^-1 *)
+Theorem C20_jac_scale_is_jacobian_of_scaled_map :
+  forall (rs ra ds da : option sv) (J : list (list Q)) (x x' : list Q) (c : Q) (i : nat),
+  (i < length J)%nat -> length x = length (nth i J []) -> length x' = length (nth i J []) ->
+  scalers_nz ds (length x) ->
+  T (osv_get 0 ra i) (osv_get 1 rs i) (dot (nth i J []) x + c) -
+  T (osv_get 0 ra i) (osv_get 1 rs i) (dot (nth i J []) x' + c) ==
+  dot (nth i (jac_scale rs ds J) []) (vec_scale da ds x) -
+  dot (nth i (jac_scale rs ds J) []) (vec_scale da ds x').
+Proof. exact jac_scale_is_jacobian_of_scaled_map. Qed.
+Print Assumptions C20_jac_scale_is_jacobian_of_scaled_map.
+
+(* Lagrange multipliers with an active design-variable bound (lam_b = s_d / s_f * lam_b,scaled):
+   stationarity in model space iff in optimizer space, any number of other active constraints *)
+Theorem C20_multiplier_invariance_with_bound : forall (sg lams g : list Q) (sf sd gf lamb_s : Q),
+  ~ sf == 0 -> ~ sd == 0 -> length sg = length g -> length lams = length g ->
+  (lagr (sf * gf / sd + lamb_s * 1) lams (scale_grads sd sg g) == 0 <->
+   lagr (gf + lamb_s * (sd / sf) * 1) (unscale_mults sf sg lams) g == 0).
+Proof. exact multiplier_invariance_with_bound. Qed.
+Print Assumptions C20_multiplier_invariance_with_bound.
